@@ -139,9 +139,45 @@ pub mod std {
             use ::std::time::{Duration, Instant};
 
             pub use shuttle::sync::mpsc::{
-                RecvError, RecvTimeoutError, SendError, Sender, SyncSender, TryRecvError,
-                TrySendError,
+                RecvError, RecvTimeoutError, SendError, TryRecvError, TrySendError,
             };
+
+            /// shuttle's sender with one addition: the start of a `send` is reported to the
+            /// simulator, whose "stall" policy may keep the sending task off the processor for
+            /// a long stretch right there — a message in flight is where first-message-wins
+            /// protocols race, and a long preemption at that point is what real schedulers do
+            /// and a step-by-step random walk practically never does.
+            #[derive(Debug)]
+            pub struct Sender<T>(shuttle::sync::mpsc::Sender<T>);
+            #[derive(Debug)]
+            pub struct SyncSender<T>(shuttle::sync::mpsc::SyncSender<T>);
+
+            impl<T> Clone for Sender<T> {
+                fn clone(&self) -> Self {
+                    Sender(self.0.clone())
+                }
+            }
+            impl<T> Clone for SyncSender<T> {
+                fn clone(&self) -> Self {
+                    SyncSender(self.0.clone())
+                }
+            }
+            impl<T> Sender<T> {
+                pub fn send(&self, t: T) -> Result<(), SendError<T>> {
+                    crate::world::before_publish();
+                    self.0.send(t)
+                }
+            }
+            impl<T> SyncSender<T> {
+                pub fn send(&self, t: T) -> Result<(), SendError<T>> {
+                    crate::world::before_publish();
+                    self.0.send(t)
+                }
+                pub fn try_send(&self, t: T) -> Result<(), TrySendError<T>> {
+                    crate::world::before_publish();
+                    self.0.try_send(t)
+                }
+            }
 
             const PATIENCE: usize = 4;
 
@@ -150,12 +186,12 @@ pub mod std {
 
             pub fn channel<T>() -> (Sender<T>, Receiver<T>) {
                 let (s, r) = shuttle::sync::mpsc::channel();
-                (s, Receiver(r))
+                (Sender(s), Receiver(r))
             }
 
             pub fn sync_channel<T>(bound: usize) -> (SyncSender<T>, Receiver<T>) {
                 let (s, r) = shuttle::sync::mpsc::sync_channel(bound);
-                (s, Receiver(r))
+                (SyncSender(s), Receiver(r))
             }
 
             impl<T> Receiver<T> {
